@@ -137,3 +137,84 @@ theorem resGo_ok (n : Str) (id : Nat) :
     simpa using this
 
 end Wac.Elab
+
+namespace Wac.Elab
+open Wac Wac.Spec.Wit Wac.Decode
+
+variable {ρ : Nat → Res}
+
+/-- the resource a declaration `resource n` in `container` denotes -/
+def declRes (container : Str) (next : Nat) (n : Str) : Res :=
+  { uid := 0, idx := next, name := (if container.contains ':' then container else []) ++ ['#'] ++ n }
+
+theorem HK_type_resource {T : Types} {rid : Nat} {q : Res} (h : HR T rid (ρ q.idx)) :
+    HK [] [] T (kb T) (.type (.resource rid)) (renT ρ (.type (.resource q))) := by
+  intro T' F he hF
+  obtain ⟨F', rfl⟩ : ∃ F', F = F' + 1 := ⟨F - 1, by unfold kb at hF; omega⟩
+  simp only [Types.unfoldKind, renT]
+  exact congrArg (Option.map fun x => Tree.type (Tree.resource x)) (h.toHL T' he)
+
+/-- **a resource declaration denotes what WIT says**: a fresh resource exported under its name,
+then `[constructor]r`, `[method]r.m` (with `self: borrow<r>`), `[static]r.m`. -/
+theorem resourceDecl_ok {st st' : St} {n : Str} {items : List ResItem} {externs externs' : List (Str × ItemKind)}
+    (h : resourceDecl st n items externs = .ok (st', externs')) :
+    Grow st.types st'.types ∧ st'.root = st.root ∧
+    ∀ (container : Str) (ifaces : List (Str × List (Str × Tree))) (s s' : Scope) (out : List (Str × Tree)),
+      denoteItem container ifaces s (.resource n items) = some (s', out) →
+      s'.next = s.next + 1 ∧
+      ∀ (RL : List Nat), RL.length = s.next → ConsE ρ (RL ++ [st.types.resources.length]) st'.types →
+        Sim ρ st.types st.scope s.binds → ∀ acc, ExpRel ρ st.types externs acc →
+        ((acc ++ out).map (·.1)).Nodup →
+        Sim ρ st'.types st'.scope s'.binds ∧ ExpRel ρ st'.types externs' (acc ++ out) := by
+  unfold resourceDecl at h
+  simp only at h
+  split at h
+  · cases h
+  · rename_i st2 hreg
+    obtain ⟨hfr, rfl⟩ := register_ok hreg
+    obtain ⟨g2, sc2, rt2, k2⟩ := resGo_ok (ρ := ρ) n _ _ _ _ _ _ h
+    have g1 := Grow.addResource st { name := n, alias := none }
+    refine ⟨g1.trans g2, rt2, ?_⟩
+    intro container ifaces s s' out hden
+    simp only [denoteItem] at hden
+    obtain ⟨l, hl, hden⟩ := Option.map_eq_some_iff.mp hden
+    cases hden
+    refine ⟨rfl, ?_⟩
+    intro RL hRL hcons hsim acc hexp hnd
+    -- the leaf of the new resource is what `ρ` says
+    have hidx : (Elab.addResource st { name := n, alias := none }).2 = st.types.resources.length := rfl
+    obtain ⟨x', hx', hxn, _⟩ := g2.ext.resources st.types.resources.length { name := n, alias := none }
+      (by simp [Elab.addResource])
+    have hρ : ρ s.next = ⟨st.types.uid, st.types.resources.length, n⟩ := by
+      have := hcons s.next st.types.resources.length x' (by rw [← hRL]; simp) hx'
+      rw [this, hxn, (g1.trans g2).ext.uid]
+    have hr : HR (Elab.addResource st { name := n, alias := none }).1.types st.types.resources.length
+        (ρ s.next) := by rw [hρ]; exact HR_root st n
+    -- scopes
+    have hsim1 := (hsim.mono g1).push (n := n) (b := .ty (.resource st.types.resources.length))
+      (bd := .res (declRes container s.next n)) hfr hr
+    -- the type export
+    have hfresh : alGet externs n = none := by
+      apply alGet_none_of_not_mem
+      rw [hexp.names]
+      intro hm
+      simp only [List.map_append, List.map_cons] at hnd
+      rw [List.nodup_append] at hnd
+      exact hnd.2.2 _ hm _ (List.mem_cons_self ..) rfl
+    have hins : alInsert externs n (.type (.resource st.types.resources.length)) =
+        externs ++ [(n, .type (.resource st.types.resources.length))] :=
+      alInsert_fresh _ _ _ (alGet_none_not_mem _ _ hfresh)
+    have hexp1 : ExpRel ρ (Elab.addResource st { name := n, alias := none }).1.types
+        (externs ++ [(n, .type (.resource st.types.resources.length))])
+        (acc ++ [(n, .type (.resource (declRes container s.next n)))]) :=
+      All2.append (hexp.mono g1) ⟨rfl, HK_type_resource (q := declRes container s.next n) hr,
+        fun rid hk => by cases hk; exact ⟨declRes container s.next n, rfl, hr⟩⟩
+    have hres := k2 ({ binds := s.binds ++ [(n, Bind.res (declRes container s.next n))], next := s.next + 1 } : Scope)
+      (declRes container s.next n) _ l hsim1 hr (by rw [hidx, hins]; exact hexp1) hl (by simpa using hnd)
+    have hassoc : ∀ x : Str × Tree, (acc ++ [x]) ++ l = acc ++ x :: l := by intro x; simp
+    rw [hassoc] at hres
+    refine ⟨?_, hres⟩
+    rw [sc2]
+    exact hsim1.mono g2
+
+end Wac.Elab
